@@ -18,7 +18,7 @@ fn splitmix(s: &mut u64) -> u64 {
 }
 
 macro_rules! narrow_impl {
-    ($m:ident, $S:ident, $tag:expr, $tiny_pow:expr, $small_angles:expr, $pow_range:expr) => {
+    ($m:ident, $S:ident, $tag:expr, $tiny_pow:expr, $small_angles:expr, $pow_range:expr, $len_scales:expr) => {
         pub mod $m {
             use super::*;
             type S = $S;
@@ -232,9 +232,36 @@ macro_rules! narrow_impl {
                         || format!("unit Quaternion<{}> q = {:?} (half turn - {:e} about {:?}): Quaternion::from(Basis3::from(q)) = {:?}, from(Matrix3) = {:?}",
                             $tag, qh, del, a, back_b, back_m));
                 }
+                // bit-exact ties between two diagonal elements of the matrix (two vector components of equal
+                // magnitude, the third smaller -- zero included -- and |s| < 1/2 so that the trace is negative)
+                let tt = Tally::new(name("c05.diagonal_tie_round_trip"));
+                let smalls: [S; 6] = [0.0, 1.0e-3, 0.05, 0.2, -0.3, 0.5];
+                let ws: [S; 5] = [0.0, 0.1, -0.2, 0.3, 0.45];
+                for (k, &y) in smalls.iter().enumerate() {
+                    for &w in ws.iter() {
+                        for pos in 0..3 {
+                            for sg in [1.0 as S, -1.0] {
+                                // a chosen so that the quaternion is unit up to rounding; normalise keeps the tie
+                                let a = ((1.0 - w * w - y * y) / 2.0 as S).sqrt();
+                                if a <= y.abs() { continue; }
+                                let (x_, y_, z_) = match pos { 0 => (a, y, sg * a), 1 => (a, sg * a, y), _ => (y, a, sg * a) };
+                                let q = Quaternion::new(w, x_, y_, z_);
+                                let q = q / q.magnitude();
+                                let m = Matrix3::from(q);
+                                let back = Quaternion::from(m);
+                                let same = (back.s - q.s).abs().max(vmax(back.v - q.v));
+                                let neg = (back.s + q.s).abs().max(vmax(back.v + q.v));
+                                let _ = k;
+                                tt.rec(same.min(neg) <= 64.0 * EPS, || format!("unit Quaternion<{}> q = {:?} (Matrix3 diagonal {:?}, {:?}, {:?}): Quaternion::from(Matrix3::from(q)) = {:?}",
+                                    $tag, q, m.x.x, m.y.y, m.z.z, back));
+                            }
+                        }
+                    }
+                }
                 t.print();
                 th.print();
                 t6.print();
+                tt.print();
             }
 
             // ---------------------------------------------------------------- C08
@@ -456,6 +483,67 @@ macro_rules! narrow_impl {
                             $tag, qa, qb, qa.dot(qb), tt, arc, want, (arc - want).abs()));
                 }
                 t.print();
+                // the sign rule exactly at the boundary: a.b negative but smaller in magnitude than machine epsilon
+                // (axis-aligned pairs, so that the computed dot product is exactly -d): shorter arc = between a and -b
+                let ts = Tally::new(name("c14.sign_rule_tiny_negative_dot"));
+                let ds: [S; 6] = [EPS * 0.45, EPS * 0.9, EPS * 0.25, EPS * 1.0e-3, S::MIN_POSITIVE * 4.0, EPS * 3.0];
+                for (k, &d) in ds.iter().enumerate() {
+                    for slot in 0..3 {
+                        for &tt in [0.25 as S, 0.5, 0.75, 1.0].iter() {
+                            let c = (1.0 - d * d).sqrt();
+                            let a = Quaternion::<S>::new(1.0, 0.0, 0.0, 0.0);
+                            let mut v = [0.0 as S; 3];
+                            v[slot] = if k % 2 == 0 { c } else { -c };
+                            let b = Quaternion::<S>::new(-d, v[0], v[1], v[2]);
+                            // reference on the arc from a to -b (a quarter turn up to d): angle t * pi/2
+                            let th = (tt as f64) * std::f64::consts::FRAC_PI_2;
+                            let want_s = th.cos() as S;
+                            let want_v = -(v[slot]) * (th.sin() as S);
+                            let rs = a.slerp(b, tt);
+                            let rn = a.nlerp(b, tt);
+                            let got_v = |q: Quaternion<S>| [q.v.x, q.v.y, q.v.z][slot];
+                            let ok_s = (rs.s - want_s).abs() <= 1.0e-3 && (got_v(rs) - want_v).abs() <= 1.0e-3;
+                            // nlerp: same plane and same side (not constant speed): direction of the vector part and positive s
+                            let ok_n = got_v(rn) * want_v > 0.0 && (rn.magnitude() - 1.0).abs() <= 64.0 * EPS && (tt >= 1.0 || rn.s > 0.0);
+                            ts.rec(ok_s && ok_n, || format!("Quaternion<{}>: a = {:?}, b = {:?} (a.b = {:e} < 0), t = {}: slerp = {:?}, nlerp = {:?}; the arc between a and -b has s = {:e}, v[{}] = {:e}",
+                                $tag, a, b, a.dot(b), tt, rs, rn, want_s, slot, want_v));
+                        }
+                    }
+                }
+                ts.print();
+            }
+
+            // ---------------------------------------------------------------- C11
+            /// |u||v| cos(angle(u,v)) = u.v at every scale (angle must not depend on the lengths), angle in [0, pi], symmetric
+            pub fn c11(n: u64, seed: u64) {
+                let t = Tally::new(name("c11.angle_cosine_law_all_scales"));
+                let mut s = seed ^ 0xc11;
+                let scales: [S; 8] = $len_scales;
+                for i in 0..n.min(4000) {
+                    let (u0, v0) = if i % 5 == 0 {
+                        // exactly perpendicular / at 60 degrees
+                        (Vector3::new(3.0 as S, 4.0, 0.0), if i % 10 == 0 { Vector3::new(-4.0 as S, 3.0, 0.0) } else { Vector3::new(1.0 as S, 0.0, 1.0) })
+                    } else { (v3(&mut s), v3(&mut s)) };
+                    let (ku, kv) = (scales[(i % 8) as usize], scales[((i / 8) % 8) as usize]);
+                    let (a, b) = (u0 * ku, v0 * kv);
+                    let ang = a.angle(b).0;
+                    let lhs = a.magnitude() * b.magnitude() * ang.cos();
+                    let tol = 64.0 * EPS * a.magnitude() * b.magnitude();
+                    let sym = b.angle(a).0;
+                    let ok = (lhs - a.dot(b)).abs() <= tol && ang >= 0.0 && ang <= 3.1415927 && (sym - ang).abs() <= 16.0 * EPS;
+                    t.rec(ok, || format!("Vector3<{}> u = {:?}, v = {:?}: angle(u,v) = {:e} rad, |u||v|cos(angle) = {:e}, u.v = {:e}; angle(v,u) = {:e}",
+                        $tag, a, b, ang, lhs, a.dot(b), sym));
+                    // the other dimensions and the quaternion
+                    let (a4, b4) = (Vector4::new(a.x, a.y, a.z, ku * 0.5), Vector4::new(b.x, b.y, b.z, -kv * 0.25));
+                    let g4 = a4.angle(b4).0;
+                    let (a2, b2) = (Vector2::new(a.x, a.y), Vector2::new(b.x, b.y));
+                    let g2 = a2.angle(b2).0;
+                    let ok4 = (a4.magnitude() * b4.magnitude() * g4.cos() - a4.dot(b4)).abs() <= 64.0 * EPS * a4.magnitude() * b4.magnitude()
+                        && (a2.magnitude2() == 0.0 || b2.magnitude2() == 0.0
+                            || (a2.magnitude() * b2.magnitude() * g2.cos() - a2.dot(b2)).abs() <= 64.0 * EPS * a2.magnitude() * b2.magnitude());
+                    t.rec(ok4, || format!("Vector4/Vector2<{}> (from u = {:?}, v = {:?}): angle4 = {:e}, angle2 = {:e}", $tag, a4, b4, g4, g2));
+                }
+                t.print();
             }
 
             // ---------------------------------------------------------------- C15
@@ -511,8 +599,8 @@ macro_rules! narrow_impl {
     };
 }
 
-narrow_impl!(f64n, f64, "f64", 60, [5.0e-8, 1.0e-7, 3.0e-7, 1.0e-6, 1.0e-5, 1.0e-4], 1000);
-narrow_impl!(f32n, f32, "f32", 27, [3.0e-4, 5.0e-4, 1.0e-3, 2.0e-3, 5.0e-3, 1.0e-2], 120);
+narrow_impl!(f64n, f64, "f64", 60, [5.0e-8, 1.0e-7, 3.0e-7, 1.0e-6, 1.0e-5, 1.0e-4], 1000, [1.0, 1.0e-5, 1.0e-3, 1.0e3, 1.0e-9, 1.0e6, 3.0e-7, 0.25]);
+narrow_impl!(f32n, f32, "f32", 27, [3.0e-4, 5.0e-4, 1.0e-3, 2.0e-3, 5.0e-3, 1.0e-2], 120, [1.0, 1.0e-2, 1.0e-3, 1.0e2, 3.0e-4, 1.0e3, 0.03, 0.25]);
 
 pub fn run(which: &str, n: u64, seed: u64) {
     match which {
@@ -520,6 +608,7 @@ pub fn run(which: &str, n: u64, seed: u64) {
         "nrc04" => { f64n::c04(n, seed); f32n::c04(n, seed) }
         "nrc05" => { f64n::c05(n, seed); f32n::c05(n, seed) }
         "nrc08" => { f64n::c08(n, seed); f32n::c08(n, seed) }
+        "nrc11" => { f64n::c11(n, seed); f32n::c11(n, seed) }
         "nrc10" => { f64n::c10(n, seed); f32n::c10(n, seed) }
         "nrc12" => { f64n::c12(n, seed); f32n::c12(n, seed) }
         "nrc13" => { f64n::c13(n, seed); f32n::c13(n, seed) }
